@@ -121,6 +121,11 @@ type Host struct {
 // Sim is one simulated run.
 type Sim struct {
 	finalTraffic       bool
+	finalCCDone        bool
+	finalSnapDone      bool
+	finalCCTries       int
+	finalSnapTries     int
+	finalAdminLog      string
 	ctx                *runner.Ctx
 	src                *choice.Source
 	ex                 *coro.Exec
@@ -1385,6 +1390,76 @@ func (s *Sim) finalPhase() {
 		return
 	}
 	s.ctx.Count("probe.final_converged", 1)
+	// "... membership changes and snapshot requests submitted afterwards
+	// complete": one of each is submitted now and repeated (through another
+	// replica) until it completes
+	if !s.fairRounds(budget, s.finalAdminDone) {
+		if !s.ctx.Violated() {
+			what := ""
+			if !s.finalCCDone {
+				what = "membership change"
+			}
+			if !s.finalSnapDone {
+				if what != "" {
+					what += " and "
+				}
+				what += "snapshot request"
+			}
+			s.orc.livenessFailed(what + " not completed (" + s.finalAdminLog + ")")
+		}
+		return
+	}
+	s.ctx.Count("probe.final_admin_completed", 1)
+}
+
+// ghostReplicaID is a replica id that never was a member: removing it is a
+// membership change without any effect on quorums or traffic.
+const ghostReplicaID = 999
+
+// finalAdminDone drives the last stage of the fair phase: a membership change
+// (removal of a replica id that never was a member) and a snapshot request
+// must complete. A request that fails (Dropped, Timeout, Rejected because the
+// ConfigChangeId was overtaken, refused because the replica is busy) is
+// submitted again through the next running replica.
+func (s *Sim) finalAdminDone() bool {
+	s.pollAdmin()
+	ccOut, snapOut := false, false
+	for _, a := range s.admin {
+		if a.what == "final-remove" {
+			ccOut = true
+		}
+		if a.what == "final-snapshot" {
+			snapOut = true
+		}
+	}
+	var cands []*Host
+	for _, h := range s.runningHosts() {
+		if h.role != roleWitness && !h.removed {
+			cands = append(cands, h)
+		}
+	}
+	if len(cands) == 0 {
+		return false
+	}
+	if !s.finalCCDone && !ccOut {
+		via := cands[s.finalCCTries%len(cands)]
+		s.finalCCTries++
+		ccid := uint64(0)
+		if s.cfg.OrderedCC {
+			ccid = s.orc.lastCCID
+		}
+		s.issueAdmin(&adminReq{what: "final-remove", host: via, ccid: ccid}, func(nh *dragonboat.NodeHost) (*dragonboat.RequestState, error) {
+			return nh.RequestDeleteReplica(shardID, ghostReplicaID, ccid, s.adminTimeout())
+		})
+	}
+	if !s.finalSnapDone && !snapOut {
+		via := cands[s.finalSnapTries%len(cands)]
+		s.finalSnapTries++
+		s.issueAdmin(&adminReq{what: "final-snapshot", host: via}, func(nh *dragonboat.NodeHost) (*dragonboat.RequestState, error) {
+			return nh.RequestSnapshot(shardID, dragonboat.SnapshotOption{}, s.adminTimeout())
+		})
+	}
+	return s.finalCCDone && s.finalSnapDone
 }
 
 // fairRounds runs the fair schedule: every live host ticks once per round and
